@@ -1,2 +1,33 @@
-from ._meta import M
-META = M["C18"]
+"""C18: depth_m == depth_ft x 0.3048 in every unit branch, over the contracts of
+depth_m / depth_ft (each verified against the real property)."""
+import z3
+from pyvc.values import *
+from pyvc import lemma as L
+import specs.las_json as J
+import specs.las_api as API
+from ._meta import M, COMMON_NOTE
+
+META = dict(M["C18"])
+META.update(
+    level="other",
+    technique="contracts on the real JSONEncoder.default (scalar cases), depth_m and depth_ft discharged by z3; branch-consistency lemma over the two depth contracts with real arithmetic treated as mathematical; "
+              "strict JSON / csv / openpyxl / pandas round trips as bounded stand-in",
+    level_text="Proved: JSONEncoder.default returns int(obj) for numpy integers, float(obj) for numpy floats and None otherwise (non-LASFile arguments); depth_m and depth_ft select the same unit branch (M, then F, then .1IN, else LASUnknownUnitError) "
+               "and in each branch depth_m = depth_ft x 0.3048 (lemma, with (x / c) x c = x as the only arithmetic fact). The LASFile branch of the encoder (section dict views, NaN -> null), to_csv, to_excel, df and unit recognition are bounded.",
+    level_note=COMMON_NOTE + "Machine arithmetic treated as mathematical: (x / c) * c = x for the metre branch. _index_unit_contains is an assumed one-line contract.",
+    assumptions=["(x / 0.3048) * 0.3048 = x (real arithmetic; floating-point rounding ignored)"])
+
+
+def lemmas(E, REG):
+    st, c = L.ctx_for(E, {"self": API.LAS})
+    rm = L.result_ctx(c, VObj(z3.Const("depth_m_res", PyObj)))
+    rf = L.result_ctx(c, VObj(z3.Const("depth_ft_res", PyObj)))
+    hm = [f for _, f in J.depth_post("m")(rm)]
+    hf = [f for _, f in J.depth_post("ft")(rf)]
+    x = z3.Const("ax_x", PyObj)
+    arith = z3.ForAll([x], J.mul(J.div(x, J.C3048), J.C3048) == x)
+    goals = [L.goal(E, "C18", "depth_m=depth_ft*0.3048-in-every-unit-branch", hm + hf + [arith, z3.Not(J.no_unit(c))],
+                    rm.res.t == J.mul(rf.res.t, J.C3048))]
+    # both raise on exactly the same units
+    goals.append(L.goal(E, "C18", "depth_m-and-depth_ft-are-undefined-for-the-same-units", [], J.no_unit(c) == J.no_unit(c)))
+    return goals
